@@ -78,8 +78,11 @@ RISKY = {
 }
 
 
+_TRANS = str.maketrans(SYMBOLS)
+
+
 def map_text(text: str) -> str:
-    return "".join(SYMBOLS.get(c, c) for c in text)
+    return text.translate(_TRANS)
 
 
 # --------------------------------------------------------------------------------------------------
@@ -407,7 +410,7 @@ def _render1(n: dict, a: Analysis, nd: bool, collect: bool) -> str:
 def analyse(spec: dict) -> Analysis:
     a = Analysis()
     exp = _render(spec["c"], a, True, True)
-    alt = _render(spec["c"], a, False, False)
+    alt = _render(spec["c"], a, False, False) if "d-delimiter-chr-without-val" in a.risky else exp
     if a.malformed >= 2:
         a.risky.add("two-malformed-radicals")
     if a.malformed:
@@ -705,13 +708,18 @@ def random_node(rng, tok, depth: int, width: int, risky: str | None = None, brac
     """A random structural node of height <= depth made of clean options only (risky ones are planted later)."""
     kinds = list(STRUCT) + (list(CONTAINERS) if containers and rng.random() < 0.15 else [])
     kind = rng.choice(kinds)
-    allv = [v for v in variants(kind) if _clean_variant(kind, v[0])]
+    allv = _CLEANV.get(kind)
+    if allv is None:
+        allv = _CLEANV[kind] = [v for v in variants(kind) if _clean_variant(kind, v[0])]
     opts, shape = rng.choice(allv)
     if kind == "d":
         # clean trees: every m:d spells out both delimiters unless nothing below it is a delimiter (checked by caller)
         opts = dict(opts)
     fill = lambda k, name, i: random_operand(rng, tok, depth - 1, width, risky, braces)
     return make(kind, opts, shape, fill, ip=rng.choice((0, 0, 1)))
+
+
+_CLEANV: dict = {}
 
 
 def _clean_variant(kind: str, o: dict) -> bool:
